@@ -275,7 +275,7 @@ class Conv1d(Op):
         L = max(need - 2 * padding, 1) + rng.choice([0, 1, 2, 5, 9, 14])
         batch = rng.choice([None, 1, 2, 3, 6])
         return {"batch": batch, "cin": cin_g * groups, "cout": cout_g * groups, "k": k, "L": L, "stride": stride,
-                "padding": padding, "dilation": dilation, "groups": groups, "bias": rng.random() < 0.5}
+                "padding": padding, "dilation": dilation, "groups": groups, "bias": rng.random() < 0.5, "tuple_args": rng.random() < 0.2}
 
     def build(self, cfg, gen, dtype):
         shape = ([cfg["batch"]] if cfg["batch"] is not None else []) + [cfg["cin"], cfg["L"]]
@@ -285,8 +285,10 @@ class Conv1d(Op):
         return a
 
     def call_u(self, U, a, cfg, constraint):
-        return U.conv1d(a["input"], a["weight"], a["bias"], stride=cfg["stride"], padding=cfg["padding"],
-                        dilation=cfg["dilation"], groups=cfg["groups"], **_ckw(constraint))
+        # F.conv1d takes ints or 1-tuples (torch.nn.Conv1d always passes 1-tuples): "tuple_args" uses the tuple spelling
+        t = (lambda v: (v,)) if cfg.get("tuple_args") else (lambda v: v)
+        return U.conv1d(a["input"], a["weight"], a["bias"], stride=t(cfg["stride"]), padding=t(cfg["padding"]),
+                        dilation=t(cfg["dilation"]), groups=cfg["groups"], **_ckw(constraint))
 
     def call_ref(self, a, cfg, grad_ref=False):
         return F.conv1d(a["input"], a["weight"], a["bias"], cfg["stride"], cfg["padding"], cfg["dilation"], cfg["groups"])
